@@ -19,18 +19,14 @@ WRITER = ('W', 'D')
 def plan(tier):
     if tier == 'quick':
         return [
-            # collection P[1].items derived from the link attribute b; 2 rows (one inside, one outside)
-            dict(name='c21-link', how='graph', limit=520,
-                 cfg=dict(NS=2, NO=2, MaxOps=2, KB='link', OpSet1=READER, OpSet=WRITER)),
-            # scalar attributes, reader with 3 operations, writer updates/deletes
-            dict(name='c21-scalar', how='graph', limit=300,
+            # 2 rows (one inside P[1].items, one outside); attribute b is the link the collection is derived from,
+            # or volatile (exempt), or optimistic=False / float (not exempt from repeatable reads)
+            dict(name='c21-reader-writer', how='graph', limit=700,
+                 cfg=dict(NS=2, NO=2, MaxOps=2, KB=('link', 'volatile', 'nonopt'), OpSet1=READER, OpSet=WRITER)),
+            # scalar attributes, reader with 3 operations (incl. get_for_update as re-delivery), writer updates/deletes
+            dict(name='c21-scalar-3ops', how='graph', limit=220,
                  cfg=dict(NS=2, NO=1, MaxOps=3, OpSet1=('R', 'Q', 'GFU'), OpSet=WRITER)),
-            # volatile attributes are exempt; optimistic=False / float attributes are not
-            dict(name='c21-volatile', how='graph', limit=100,
-                 cfg=dict(NS=2, NO=1, MaxOps=2, KB='volatile', OpSet1=('R', 'Q', 'W'), OpSet=('W',))),
-            dict(name='c21-nonopt', how='graph', limit=100,
-                 cfg=dict(NS=2, NO=1, MaxOps=2, KB='nonopt', OpSet1=('R', 'Q'), OpSet=('W',))),
-            dict(name='c21-link-3ops-sim', how='simulate', num=200, depth=14,
+            dict(name='c21-link-3ops-sim', how='simulate', num=180, depth=14,
                  cfg=dict(NS=2, NO=2, MaxOps=3, KB='link', OpSet1=READER + ('W',), OpSet=WRITER + ('R',))),
         ]
     return [
